@@ -652,6 +652,12 @@ class SymFloat:
         o = _fl(o)
         if s.intview is not None and o.intview is not None:
             return f(s.intview, o.intview)
+        small = max(abs(s.lo), abs(s.hi), abs(o.lo), abs(o.hi)) < (1 << 30)
+        if small and s.ratview is not None and o.intview is not None and s.ratview[1] < (1 << 10):
+            # fl(J/D) vs integer n: J/D and n differ by at least 1/D unless J == n*D (then fl(J/D) == n exactly)
+            return f(s.ratview[0], o.intview * s.ratview[1])
+        if small and s.intview is not None and o.ratview is not None and o.ratview[1] < (1 << 10):
+            return f(s.intview * o.ratview[1], o.ratview[0])
         if s.ratview is not None and o.ratview is not None and s.ratview[1] == o.ratview[1]:
             # both correctly rounded quotients by the same small constant: order of the numerators
             if max(abs(s.lo), abs(s.hi), abs(o.lo), abs(o.hi)) * s.ratview[1] < (1 << 40):
